@@ -55,7 +55,8 @@ def representable(x, kind):
     """integer containers can only hold integral, non-null data"""
     if kind not in ("int64", "int32"):
         return True
-    return not any((isinstance(v, float) and math.isnan(v)) or float(v) != int(v) for v in x)
+    lim = 2.0 ** (63 if kind == "int64" else 31)
+    return not any((isinstance(v, float) and math.isnan(v)) or abs(v) >= lim or float(v) != int(v) for v in x)
 
 
 def as_container(x, kind):
@@ -108,8 +109,8 @@ def freeze(state):
 
 
 class Reporter:
-    def __init__(self, col, where, detail, sig_prefix=""):
-        self.col, self.where, self.detail, self.sig_prefix = col, where, detail, sig_prefix
+    def __init__(self, col, where, detail, sig_prefix="", sig_override=None):
+        self.col, self.where, self.detail, self.sig_prefix, self.sig_override = col, where, detail, sig_prefix, sig_override
 
     def __call__(self, ok, sig, what, **extra):
         if ok:
@@ -117,7 +118,12 @@ class Reporter:
         d = dict(self.detail)
         d.update(extra)
         d["failed"] = what
-        self.col.violation("%s :: %s" % (self.where, what), d, sig=self.sig_prefix + sig)
+        if self.sig_override and not sig.endswith("poly-raw"):
+            d["oracle"] = sig
+            sig = self.sig_override       # one coarse class per sub-check (extreme magnitudes), so that it can be listed as one finding
+        else:
+            sig = self.sig_prefix + sig
+        self.col.violation("%s :: %s" % (self.where, what), d, sig=sig)
         return False
 
 
@@ -139,6 +145,11 @@ def scale_configs():
             for sc in (True, False):
                 for ddof in (1, 0):
                     cfgs.append((fn, (ce, sc, ddof)))
+    # flags that are numpy booleans (e.g. the result of a comparison), each position x each value
+    for fn, ddof in (("scale", 1), ("standardize", 0)):
+        for ce in (numpy.True_, numpy.False_):
+            for sc in (numpy.True_, numpy.False_):
+                cfgs.append((fn, (ce, sc, ddof)))
     return cfgs
 
 
@@ -148,7 +159,7 @@ SCALE_CFGS = scale_configs()
 def cfg_effective(cfg):
     fn, args = cfg
     if args is not None:
-        return args
+        return (bool(args[0]), bool(args[1]), args[2])
     return {"scale": (True, True, 1), "center": (True, False, 1), "standardize": (True, True, 0)}[fn]
 
 
@@ -266,7 +277,7 @@ def drv_scale(c, ctx, col):
                                          "T[%r](numpy.array(%r%s), %s_state=st)" % (cfg[0], [int(v) for v in x] if kind in ("int64", "int32") else x,
                                                                                   ", dtype=%r" % kind if kind in ("int64", "int32") else "",
                                                                                   "".join("%s=%r, " % kv for kv in kw.items()))},
-                   sig_prefix="integer-input:" if kind in ("int64", "int32") else "")
+                   sig_prefix="integer-input:" if kind in ("int64", "int32") else "", sig_override=ctx.get("sig_override"))
     orc = ScaleOracle(x, cfg)
     if orc.center or orc.scale:
         col.interesting()
@@ -454,7 +465,8 @@ def drv_poly(c, ctx, col):
     poly = transforms()["poly"]
     where = "poly(x, %d) x=%s (%s)" % (degree, vec_repr(xn), kind)
     rep = Reporter(col, where, {"x": vec_repr(xn), "degree": degree, "container": kind,
-                                "repro": "from formulaic.transforms import poly; import numpy; st = {}; poly(numpy.array(%s), %d, _state=st)" % (vec_repr(xn), degree)})
+                                "repro": "from formulaic.transforms import poly; import numpy; st = {}; poly(numpy.array(%s), %d, _state=st)" % (vec_repr(xn), degree)},
+                   sig_override=ctx.get("sig_override"))
     pr = N.PolyRef(x, degree)
     col.sample({"x": vec_repr(xn), "degree": degree, "container": kind})
     col.state((tuple(x), degree, pos))
@@ -500,11 +512,12 @@ def drv_poly(c, ctx, col):
             check_poly_followup(rep, g2, new, pr, degree, "follow-up %s" % vec_repr(new))
             col.count("followups")
     rep(freeze(st) == snap, "state-mutated", "applying poly to new data changed the recorded state")
-    if pos == 0 and kind == "ndarray":
+    if pos == 0 and (kind == "ndarray" or (kind == "int64" and ctx.get("raw_int"))):
         try:
             raw = to_vec(poly(as_container(x, kind), degree, raw=True))
-            want = numpy.array([[v ** k for k in range(1, degree + 1)] for v in x], dtype=float)
-            rep(raw.shape == want.shape and bool(numpy.allclose(raw, want, rtol=1e-12, atol=0)), "poly-raw", "poly(raw=True) is not [x, x^2, ...]", got=raw.tolist())
+            want = numpy.array([[float(v) ** k for k in range(1, degree + 1)] for v in x], dtype=float)
+            rep(raw.shape == want.shape and bool(numpy.allclose(raw, want, rtol=1e-12, atol=0)), ("integer-input:" if kind == "int64" else "") + "poly-raw",
+                "poly(raw=True) is not [x, x^2, ...]", got=raw.tolist(), want=want.tolist())
         except Exception as e:  # noqa
             rep(False, "raises", "poly(raw=True) raised %s" % type(e).__name__)
 
@@ -657,9 +670,12 @@ def drv_elementwise_formula(c, ctx, col):
 # ---------------------------------------------------------------------------
 # element-wise functions on non-float64 input: integer, bool, nullable-integer and float32 columns
 
-IALPHA = [-3, -1, 0, 1, 2, 19, 25, 64, 1000]
+IALPHA = [-3, -1, 0, 1, 2, 3, 12, 19, 25, 64, 1000]
+INT_DTYPES = ["int8", "uint8", "int16", "uint16", "int32", "int64"]
 # relative tolerance = 1e-9, or 8 eps of the floating type numpy computes in for that input (bool -> float16, float32)
-DTYPE_TOL = {"int64": TOL, "int32": TOL, "Int64": TOL, "pyint": TOL, "float32": 8 * 2.0 ** -23, "bool": 8 * 2.0 ** -10}
+# integer and bool input of every width must be evaluated in double precision (1e-9 separates float64 from float32/16)
+DTYPE_TOL = {"int8": TOL, "uint8": TOL, "int16": TOL, "uint16": TOL, "int64": TOL, "int32": TOL, "Int64": TOL, "pyint": TOL,
+             "float32": 8 * 2.0 ** -23, "bool": TOL}
 
 
 def typed_alphabet(dtype):
@@ -667,13 +683,16 @@ def typed_alphabet(dtype):
         return [False, True]
     if dtype == "float32":
         return [float(numpy.float32(v)) for v in EALPHA] + [-2.0, 25.0]
+    if dtype in ("int8", "uint8", "int16", "uint16"):
+        info = numpy.iinfo(dtype)
+        return [v for v in IALPHA if info.min <= v <= info.max] + ([200] if dtype == "uint8" else []) + ([40000] if dtype == "uint16" else [])
     return list(IALPHA)
 
 
 def typed_container(x, dtype, kind):
     if kind == "scalar":
         v = x[0]
-        return v if dtype == "pyint" else {"int64": numpy.int64, "int32": numpy.int32, "float32": numpy.float32, "bool": numpy.bool_}[dtype](v)
+        return v if dtype == "pyint" else (numpy.bool_ if dtype == "bool" else numpy.dtype(dtype).type)(v)
     if dtype == "Int64":
         return pandas.Series(list(x), dtype="Int64")
     arr = numpy.array(list(x), dtype={"pyint": "int64"}.get(dtype, dtype))
@@ -742,8 +761,6 @@ def drv_elementwise_typed_formula(c, ctx, col):
     dtype = c.pick(ctx["dtypes"])
     x = c.seq(typed_alphabet(dtype), ctx["L"], 1)
     output = c.pick(ctx["outputs"])
-    if dtype == "bool" and output == "sparse":
-        raise Skip()      # UNSPECIFIED: numpy evaluates exp/log of a bool column in float16, which scipy.sparse rejects
     if not all(v <= 64 for v in x):
         raise Skip()      # exp(1000) overflows; large values are covered by the direct sub-check for the logarithms
     names = [n for n in sorted(N.ELEMENTWISE) if in_domain(n, x)]
@@ -980,19 +997,27 @@ def subchecks(tier, seed):
                                                      "D": [0.0, 1.0, 2.0, 5.0]}, shard_depth=3,
             bounds={"x": "o + h*d, d every vector of length 2..%d over {0,1,2,5}" % (3 if quick else 4),
                     "(o, h)": [list(g) for g in (POLY_GRIDS_F if quick else POLY_GRIDS)], "null": "none or first position", "outputs": outs}),
+        # --- magnitudes whose squares / cubes leave the float64 (or int64) range although data and result are representable
+        Sub("scale-extreme", drv_scale, {"L": 3, "containers": ["ndarray"], "grids": [(0.0, 1e200), (0.0, 1e-200), (1e200, 1e199)], "D": [0.0, 1.0, 3.0],
+                                         "sig_override": "extreme-magnitude-scale"}, shard_depth=3,
+            bounds={"x": "o + h*d, d every vector of length 2..3 over {0, 1, 3}", "(o, h)": [[0.0, 1e200], [0.0, 1e-200], [1e200, 1e199]], "configurations": cfgs}),
+        Sub("poly-extreme", drv_poly, {"L": 4, "maxdeg": 3, "containers": ["ndarray", "int64"], "nulls": False, "raw_int": True,
+                                       "grids": [(0.0, 1e160), (0.0, 1e-160), (0.0, 1e6)], "D": [0.0, 1.0, 2.0, 5.0], "sig_override": "extreme-magnitude-poly"}, shard_depth=3,
+            bounds={"x": "o + h*d, d every vector of length 2..4 over {0, 1, 2, 5}", "(o, h)": [[0.0, 1e160], [0.0, 1e-160], [0.0, 1e6]], "degree": "1..3",
+                    "containers": "float64 ndarray; int64 ndarray for h = 1e6 (raw=True: cubes up to 1.25e20 exceed int64)"}),
         Sub("name-history", drv_name_history, {"D": 2 if quick else 3}, shard_depth=3,
             bounds={"names": HIST_NAMES, "events": HIST_EVENTS, "history_length": "2" if quick else "2..3",
                     "isolation": "each history runs in a fresh interpreter", "train": HIST_TRAIN, "new": HIST_NEW}),
         Sub("elementwise-direct", drv_elementwise, {"L": 2 if quick else 3}, shard_depth=2,
             bounds={"alphabet": [fmt(a) for a in EALPHA], "length": "1..%d" % (2 if quick else 3), "functions": sorted(N.ELEMENTWISE),
                     "containers": ["ndarray", "series", "scalar"]}),
-        Sub("elementwise-dtypes", drv_elementwise_typed, {"L": 2 if quick else 3, "dtypes": ["int64", "int32", "Int64", "pyint", "bool", "float32"]}, shard_depth=3,
+        Sub("elementwise-dtypes", drv_elementwise_typed, {"L": 2 if quick else 3, "dtypes": INT_DTYPES + ["Int64", "pyint", "bool", "float32"]}, shard_depth=3,
             bounds={"alphabet": {"integers": IALPHA, "bool": [False, True], "float32": "float32(E) + {-2, 25}"}, "length": "1..%d" % (2 if quick else 3),
-                    "dtypes": ["int64", "int32", "pandas Int64", "python int (scalar)", "bool", "float32"], "containers": ["ndarray", "series", "scalar"],
+                    "dtypes": INT_DTYPES + ["pandas Int64", "python int (scalar)", "bool", "float32"], "containers": ["ndarray", "series", "scalar"],
                     "domain": "logarithms: all values > 0; exponentials: all values <= 64"}),
-        Sub("elementwise-dtypes-formula", drv_elementwise_typed_formula, {"L": 2 if quick else 3, "dtypes": ["int64", "int32", "Int64", "bool", "float32"],
+        Sub("elementwise-dtypes-formula", drv_elementwise_typed_formula, {"L": 2 if quick else 3, "dtypes": INT_DTYPES + ["Int64", "bool", "float32"],
                                                                           "outputs": ["pandas"] if quick else ["pandas", "sparse", "numpy"]}, shard_depth=3,
-            bounds={"length": "1..%d" % (2 if quick else 3), "dtypes": ["int64", "int32", "pandas Int64", "bool", "float32"],
+            bounds={"length": "1..%d" % (2 if quick else 3), "dtypes": INT_DTYPES + ["pandas Int64", "bool", "float32"],
                     "outputs": ["pandas"] if quick else ["pandas", "sparse", "numpy"], "values": "<= 64"}),
         Sub("elementwise-formula", drv_elementwise_formula, {"L": 2 if quick else 3, "outputs": ["pandas", "sparse", "numpy"]}, shard_depth=2,
             bounds={"alphabet": [fmt(a) for a in EALPHA], "length": "1..%d" % (2 if quick else 3), "outputs": ["pandas", "sparse", "numpy"]}),
